@@ -91,7 +91,7 @@ def parse_output(out):
     """-> list of cases {spec, calls:[{j,scene,epoch,dets,recs,status,trk:{id:..},fd:{(cand,trk):{obsuid:Q}},pos:{(cand,trk):(Q,z)}}], end:{id:trk}, wasted:{id:trk}, wasted_panic}"""
     cases = []
     cur = None
-    pend_fd = defaultdict(dict)
+    pend_fd = {}
     pend_pos = {}
     for line in out.split("\n"):
         if not line:
@@ -100,7 +100,7 @@ def parse_output(out):
         if head == "spec":
             cur = {"spec": parse_spec(rest), "calls": [], "end": {}, "wasted": {}, "wasted_panic": False, "complete": False}
             cases.append(cur)
-            pend_fd = defaultdict(dict)
+            pend_fd = {}
             pend_pos = {}
         elif head == "fd":
             p = rest.split()
@@ -108,10 +108,11 @@ def parse_output(out):
             for e in p[4].split(","):
                 u, b = e.split(":")
                 tab.setdefault(_uid(u), []).append(int(b))
-            pend_fd[(int(p[2]), int(p[3]))] = tab
+            # keyed by the call index j as well: the tables of all the calls of a multi-scene batch come before the call lines
+            pend_fd.setdefault(int(p[1]), {})[(int(p[2]), int(p[3]))] = tab
         elif head == "pos":
             p = rest.split()
-            pend_pos.setdefault((int(p[2]), int(p[3])), []).append((int(p[4]), int(p[5])))
+            pend_pos.setdefault(int(p[1]), {}).setdefault((int(p[2]), int(p[3])), []).append((int(p[4]), int(p[5])))
         elif head == "call":
             d = _kv(rest.split())
             recs_s = d.get("recs", "")
@@ -125,9 +126,7 @@ def parse_output(out):
                 recs = [parse_rec(x) for x in recs_s.split(";") if x]
             call = {"j": int(d["j"]), "scene": int(d["scene"]), "epoch": int(d["epoch"]), "after": int(d["after"]) if "after" in d else None,
                     "dets": [parse_det(x) for x in d.get("dets", "").split(";") if x], "recs": recs, "status": status,
-                    "trk": {}, "fd": dict(pend_fd), "pos": dict(pend_pos), "panic_loc": panic_loc, "share": {}}
-            pend_fd = defaultdict(dict)
-            pend_pos = {}
+                    "trk": {}, "fd": dict(pend_fd.pop(int(d["j"]), {})), "pos": dict(pend_pos.pop(int(d["j"]), {})), "panic_loc": panic_loc, "share": {}}
             cur["calls"].append(call)
         elif head == "share":
             p = rest.split()      # k j uid id stored-bits|- feature-stored record-length
@@ -254,7 +253,7 @@ def oracle_case(case):
     fails = []
     lives, problems = lives_of(case)
     fails.extend(problems)
-    visual = spec["trk"] != "sort"
+    visual = spec["trk"] not in ("sort", "bsort")
     arrivals = defaultdict(list)
     prev_gal = {}
     for ci, call in enumerate(case["calls"]):
@@ -354,7 +353,7 @@ def model_exprs(case):
     lives, _ = lives_of(case)
     res = []
     for tid, life in sorted(lives.items()):
-        if spec["trk"] == "sort":
+        if spec["trk"] in ("sort", "bsort"):
             e = "sort_trace %d%%nat %s" % (spec["hist"], coq_list([n_lit(d["uid"]) for _, _, d in life]))
         else:
             e = "run_trace %s %s" % (coq_gopts(spec), coq_list(["(%s, %s)" % (coq_bool(m), coq_det(d)) for _, m, d in life]))
@@ -373,7 +372,7 @@ def compare_life(case, tid, life, val):
         if t is None:
             diffs.append((ci, "no dump"))
             continue
-        if spec["trk"] == "sort":
+        if spec["trk"] in ("sort", "bsort"):
             obs, pred, ln = st
             if t["obs"] != obs or t["pred"] != pred or t["len"] != ln:
                 diffs.append((ci, "sort histories: impl %s/%s/%d model %s/%s/%d" % (t["obs"], t["pred"], t["len"], obs, pred, ln)))
@@ -391,7 +390,7 @@ def compare_life(case, tid, life, val):
     w = case["wasted"].get(tid)
     if w is not None and val:
         st = val[-1]
-        if spec["trk"] == "sort":
+        if spec["trk"] in ("sort", "bsort"):
             if w["obs"] != st[0] or w["pred"] != st[1] or w["len"] != st[2]:
                 diffs.append(("wasted", "sort"))
         else:
@@ -409,7 +408,7 @@ def nontrivial_key(case):
     for tid, life in lives.items():
         if len(life) > spec["hist"]:
             over = True
-        if spec["trk"] != "sort":
+        if spec["trk"] not in ("sort", "bsort"):
             nf = 0
             for ci, m, d in life:
                 stored = d["feat"] and (not m or can_collect(spec, d))
@@ -418,7 +417,7 @@ def nontrivial_key(case):
                 nf += 1 if stored else 0
             if nf > spec["maxobs"]:
                 ev = True
-    if spec["trk"] == "sort":
+    if spec["trk"] in ("sort", "bsort"):
         return over
     return over and ev and gate
 
